@@ -2,11 +2,4 @@ package corr
 
 import "fmt"
 
-func (c *ctx) streamP() error       { return fmt.Errorf("stream P not implemented") }
-func (c *ctx) streamE() error       { return fmt.Errorf("stream E not implemented") }
-func (c *ctx) streamD() error       { return fmt.Errorf("stream D not implemented") }
-func (c *ctx) streamT() error       { return fmt.Errorf("stream T not implemented") }
-func (c *ctx) streamS() error       { return fmt.Errorf("stream S not implemented") }
-func (c *ctx) streamR() error       { return fmt.Errorf("stream R not implemented") }
-func (c *ctx) forwardCompat() error { return nil }
 func (c *ctx) replayFile(path string) error { return fmt.Errorf("replay not implemented") }
